@@ -570,6 +570,16 @@ fn make_var_heavy(r: &mut Rng, p: &mut Prog, d: &J) {
     let k1 = key(r);
     p.lets.push(Let { name: "fq".into(), val: Arg::Query(Query { some: false, parts: vec![Part::Key(k1.clone())] }) });
     p.lets.push(Let { name: "fc".into(), val: Arg::Func(Box::new(Func { name: "count".into(), args: vec![Arg::Query(Query { some: false, parts: vec![Part::Key(k1), Part::Star] })] })) });
+    if matches!(d, J::Map(kv) if kv.iter().any(|(k, _)| k == "recs")) {
+        let some = r.chance(2, 3);
+        p.lets.push(Let { name: "sq".into(), val: Arg::Query(Query { some, parts: vec![Part::Key("recs".into()), Part::AllIdx, Part::Key("nick".into())] }) });
+        // a probe rule that references it several times, with different operators
+        let mk = |op: Op, opnot: bool| Line { alts: vec![Clause::Cmp(Cmp { not: false, q: Query { some: false, parts: vec![Part::Var("sq".into())] }, op, opnot, rhs: None, msg: None })] };
+        let mut lines = vec![mk(Op::Exists, false), mk(Op::IsString, false), mk(Op::Empty, true)];
+        r.shuffle(&mut lines);
+        p.rules.push(Rule { name: "probe_sq".into(), when: vec![], body: Body { lets: vec![], lines } });
+        p.rules.push(Rule { name: "probe_sq2".into(), when: vec![mk(Op::Exists, false)], body: Body { lets: vec![], lines: vec![mk(Op::IsString, false)] } });
+    }
     let file_vars: Vec<String> = p.lets.iter().map(|l| l.name.clone()).collect();
     let nrules = p.rules.len();
     for v in &file_vars {
@@ -748,7 +758,18 @@ impl Check for C15 {
             let n = 2 + r.usize(2);
             let mut idx = r.perm(pool.len());
             idx.truncate(n);
-            let recs: Vec<J> = idx.iter().enumerate().map(|(i, k)| J::Map(vec![("name".into(), J::Str(pool[*k].into())), ("n".into(), J::Int(i as i64))])).collect();
+            // `nick` is present in some records only: `some recs[*].nick` leaves unresolved entries to filter
+            let recs: Vec<J> = idx
+                .iter()
+                .enumerate()
+                .map(|(i, k)| {
+                    let mut m = vec![("name".to_string(), J::Str(pool[*k].into())), ("n".to_string(), J::Int(i as i64))];
+                    if i % 2 == 0 {
+                        m.push(("nick".to_string(), J::Str(format!("n{}", i))));
+                    }
+                    J::Map(m)
+                })
+                .collect();
             if let J::Map(kv) = &mut d {
                 kv.push(("recs".into(), J::List(recs)));
             }
